@@ -42,3 +42,52 @@ def alias_probe(ctx, ents):
                                    "expected": "source unchanged (value semantics; fix: adopt `.clone()` in merge_state)",
                                    "broken": f"non-interference:{e.name}"},
                                   finding_id=None)
+
+
+def directed_histories(ctx, ents):
+    """Deterministically shaped histories from each entry's directed_batches(): every batch into object 0 (state
+    observed after each), compute, the last batch into object 1, fresh object 2 <- merge [0, 1], fresh 3 <- merge [1], computes."""
+    s = ctx.stream("directed histories (degenerate prefixes, ill-conditioned / wide / extreme values)")
+    bad = {}
+    for e in ents:
+        if not hasattr(e, "directed_batches"):
+            continue
+        for cfg in e.configs(ctx.rng, ctx.quick)[:ctx.n(6, 40)]:
+            bs = e.directed_batches(ctx.rng, cfg)
+            ops = [("upd", 0, b) for b in bs] + [("compute", 0), ("upd", 1, bs[0]), ("merge", 2, [0, 1], "list"), ("compute", 2),
+                                                  ("merge", 3, [1], "tuple"), ("compute", 3), ("upd", 3, bs[-1]), ("compute", 3)]
+            try:
+                d = history.check_history(e, cfg, 4, ops)
+            except Exception as ex:
+                d = {"at": -1, "why": f"{type(ex).__name__}: {ex}"}
+            s.case((e.name, repr(cfg), repr(ops)), True, sample={"class": e.name, "cfg": cfg, "nops": len(ops)})
+            s.count("class:" + e.name)
+            if d and e.name not in bad:
+                def fails(trial, e=e, cfg=cfg):
+                    try:
+                        return history.check_history(e, cfg, 4, trial) is not None
+                    except Exception:
+                        return True
+                small = history.shrink_ops(ops, fails, budget=60)
+                try:
+                    d = history.check_history(e, cfg, 4, small) or d
+                except Exception:
+                    pass
+                bad[e.name] = {"class": e.name, "cfg": cfg, "nobj": 4, "ops": small, "disagreement": d}
+                s.mismatches.append(bad[e.name])
+    for e in ents:
+        if hasattr(e, "directed_batches"):
+            m = bad.get(e.name)
+            ctx.oblige(f"tie:directed:{e.name}", m is None, detail=repr(core.canon(m))[:1500] if m else "")
+    return bad
+
+
+def report(ctx, bad, broken_prefix, check):
+    """turn located correspondence failures (shrunk histories) into failing-input violations"""
+    for name, m in bad.items():
+        if name.startswith("spec:"):
+            continue
+        ctx.violation("failing-input", name, {"check": "history", "stream": check, "class": name, "cfg": m.get("cfg"), "nobj": m.get("nobj"),
+                                              "ops": m.get("ops"), "observed": m.get("disagreement"),
+                                              "broken": f"{broken_prefix}:{name}"},
+                      finding_id=core.match_finding(ctx.prop, name, str(m.get("disagreement"))) if hasattr(core, "match_finding") else None)
